@@ -281,6 +281,29 @@ def c20_fail_closed(op, impl, model):
             f"(it must report an error, not a wrapped value): {op}")
 
 
+def c03_conversion(op, impl, model):
+    """ig.l2c x liq col / ig.c2l c liq col (scaled supplies as I80F48 bits): a venue conversion that credits / pays more than the exact
+    ratio gives (deposits are booked in collateral units: a deposit must never be credited more collateral than the tokens buy)"""
+    a = op.split()
+    if a[0] not in ("ig.l2c", "ig.c2l") or len(a) != 4 or not impl.startswith("some"):
+        return None
+    try:
+        x, l, k, v = int(a[1]), int(a[2]), int(a[3]), int(impl.split()[1])
+    except ValueError:
+        return None
+    if a[0] == "ig.l2c" and l > 0:
+        exact = x * k // l
+        if v > exact:
+            why = "the exact intermediate product leaves the number type: such a deposit must be refused" if model.strip() == "none" else "rounded in the user's favour"
+            return (f"C03 a venue deposit of {x} tokens is credited {v} collateral units where the exact conversion at this exchange rate gives {exact}: "
+                    f"the user is credited more than was paid in ({why}): {op}")
+    if a[0] == "ig.c2l" and k > 0:
+        exact = x * l // k
+        if v > exact:
+            return f"C03 a venue withdrawal of {x} collateral units announces {v} tokens where the exact conversion gives {exact}: more is paid out than is debited: {op}"
+    return None
+
+
 def c05_conditions(op, impl, model):
     """risk.postliq <k> <pre health> <portfolio> / risk.preliq <k> <portfolio>: the liquidation conditions themselves"""
     if op.startswith("risk.postliq"):
@@ -490,6 +513,29 @@ def wrapper_free_value(pid):
         if kind in out_ops + in_ops and (isa != msa or isl != msl) and ia == ma and il == ml:
             return (f"{pid} {kind} of {amount}: the bank totals move to ({isa}, {isl}) where the exact accounting gives ({msa}, {msl}) although the position is booked "
                     f"identically: totals and positions drift apart: {op[:300]}")
+        return None
+    return f
+
+
+def wrapper_ledger(pid):
+    """w.<dep|rep|wd|bor|depcap|wdcap> <bank 16> <position 6> now amount => ok <bank 16> <position 6>: whatever the exact accounting says,
+    the operation must move the bank's share totals by exactly what it moves the position's shares (C02's ledger clause)"""
+    def f(op, impl, model):
+        kind = op.split(" ", 1)[0]
+        if kind not in ("w.dep", "w.rep", "w.wd", "w.bor", "w.depcap", "w.wdcap") or not impl.startswith("ok"):
+            return None
+        i = _nums(impl)
+        try:
+            a = [int(x) for x in op.split()[1:]]
+        except ValueError:
+            return None
+        if not i or len(i) < 22 or len(a) < 22:
+            return None
+        (sa0, sl0, pa0, pl0) = (a[2], a[3], a[18], a[19])
+        (sa1, sl1, pa1, pl1) = (i[2], i[3], i[18], i[19])
+        if (sa1 - sa0) != (pa1 - pa0) or (sl1 - sl0) != (pl1 - pl0):
+            return (f"{pid} {kind}: the bank's share totals move by ({sa1 - sa0}, {sl1 - sl0}) while the position's shares move by ({pa1 - pa0}, {pl1 - pl0}): "
+                    f"a bank total no longer changes by exactly the change of the position (asset tag {a[10] if len(a) > 10 else '?'}, mint decimals {a[11] if len(a) > 11 else '?'}, deposit limit {a[7]}): {op[:300]}")
         return None
     return f
 
@@ -783,11 +829,11 @@ WITNESS = {
     "C07": [c07_health, c07_soc, world_rule2("C07")],
     "C09": [c09_health, venue_v4("C09"), world_rule("C09"), world_rule2("C09")],
     "C16": [c16_foc, c16_tags, world_rule("C16"), world_rule2("C16"), world_rule3("C16")],
-    "C03": [ixf_tokens("C03"), tf_mint("C03"), venue_booking("C03"), wrapper_free_value("C03"), world_rule("C03"), world_rule2("C03")],
+    "C03": [c03_conversion, ixf_tokens("C03"), tf_mint("C03"), venue_booking("C03"), wrapper_free_value("C03"), world_rule("C03"), world_rule2("C03")],
     "C17": [c17_limits, world_rule("C17")],
     "C06": [c06_accrual, world_rule("C06"), world_rule2("C06"), world_rule3("C06")],
     "C19": [c19_emissions, tf_mint("C19"), c19_collect("C19"), world_rule3("C19")],
-    "C02": [c02_closebank, venue_booking("C02"), wrapper_free_value("C02"), world_rule("C02"), world_rule2("C02")],
+    "C02": [c02_closebank, wrapper_ledger("C02"), venue_booking("C02"), wrapper_free_value("C02"), world_rule("C02"), world_rule2("C02")],
     "C11": [c11_health, world_rule2("C11"), world_rule3("C11")],
     "C10": [bracket_conditions("C10"), c10_health, world_rule("C10"), world_rule2("C10"), world_rule3("C10")],
     "C20": [c20_venue_value, c20_fail_closed, venue_booking("C20"), venue_v4("C20")],
